@@ -20,7 +20,8 @@ DESIGN_REF = "DESIGN.md §5 C03"
 MODULES = ["TypelibModel.Props.C03", "TypelibModel.Props.Dispatch"]
 TABLES = True
 RULE = ("programs as in C01 (all unions allowed); inputs: junk stream (primitives, text in 5 carriers, JSON / Python-literal text, "
-        "wrong-shape containers, unrelated instances, temporals) and corrupted wire forms of valid values (field dropped/renamed/"
+        "wrong-shape containers, unrelated instances, temporals), corrupted VALUES (an instance / tuple of the right class with a retyped "
+        "field or element) and corrupted wire forms of valid values (field dropped/renamed/"
         "retyped, element removed/added, nesting changed); non-trivial = composite annotation; distinct = (annotation, input)")
 ASSUMPTIONS = ["objects with adversarial dunder methods are out of scope; unrelated objects are attribute-less instances",
                "Literal/Enum membership and scalar positions are judged by Python's == / isinstance (DESIGN.md §3 Conformance)"]
@@ -67,6 +68,14 @@ def explore(ctx):
                     except Exception:  # noqa: BLE001
                         continue
                     ops2.append({"op": "um", "ty": op["ty"], "val": bad, "obs": ["conforms"]})
+                # corrupted VALUES: an instance / tuple of the right class whose field or element is retyped
+                if isinstance(op["val"], list) and op["val"] and op["val"][0] in ("o", "t", "l", "d"):
+                    for _ in range(2):
+                        try:
+                            badv = g.corrupt(op["val"])
+                        except Exception:  # noqa: BLE001
+                            continue
+                        ops2.append({"op": "um", "ty": op["ty"], "val": badv, "obs": ["conforms"]})
                 if universe.is_plain_wire(wire) and ctx.rng.random() < 0.5:
                     ops2.append({"op": "um", "ty": op["ty"], "val": universe.render_json(wire), "obs": ["conforms"]})
         jobs2.append({"prog": job["prog"], "ops": ops2})
